@@ -49,3 +49,7 @@ package tso
 //@   props C02
 //@   uncalled
 //@   modifies naiveTSO.dealRevision naiveTSO.committedRevision
+
+// C19: both counters are touched only through sync/atomic
+//@ atomic_only naiveTSO.dealRevision C19 C02
+//@ atomic_only naiveTSO.committedRevision C19
